@@ -278,6 +278,8 @@ namespace hs
             op_foreign(op);
         else if (k == "tdfx")
             op_foreign_adjacent(op);
+        else if (k == "drain")
+            op_drain(op);
         else if (k == "cor")
             op_corrupt(op);
         else if (k == "corsweep")
@@ -330,13 +332,15 @@ namespace hs
             violate(cprop("C05"), cls.c_str(), "during %s: %s", what, pending.c_str());
         }
         auto& h = handlers();
+        // (a handler that fires in a contract-respecting history also breaks whatever the history was about)
+        std::string also = "," + plan_->get("profile", "C01");
         if (h.invalid_calls)
-            violate(cprop("C16,C05"), "false_invalid_pointer_report",
+            violate(cprop(("C16,C05" + also).c_str()), "false_invalid_pointer_report",
                     "during %s of a contract-respecting history the invalid pointer handler fired "
                     "(%s)",
                     what, h.invalid_name.c_str());
         if (h.overflow_calls && !expect_overflow_)
-            violate("C17", "false_overflow_report",
+            violate(("C17" + also).c_str(), "false_overflow_report",
                     "during %s the buffer overflow handler fired although nothing wrote out of bounds",
                     what);
         if (h.leak_calls && !in_destroy_)
@@ -1679,5 +1683,26 @@ namespace hs
                 violate("C08", "foreign_dealloc_changed_state", "try_deallocate returned false but wrote into "
                                                                 "the neighbour's memory");
         heap.harness_free(p);
+    }
+} // namespace hs
+
+namespace hs
+{
+    // takes single nodes until the pool's free list is exactly empty (without growing it): the state in which
+    // "has no free node" and "has no memory" differ
+    void Interp::op_drain(const Op& op)
+    {
+        auto S = live_obj(op.arg(0));
+        if (!S || S->o->caps.kind != K_POOL)
+            return;
+        int  idx = index_of(*S);
+        auto ns  = S->o->reading(4);
+        for (int i = 0; i < 3000 && S->o->reading(0) >= ns; ++i)
+        {
+            Req r{op.arg(1) % 2 ? TRAITS : MEMBER, false, 1, ns, 1};
+            if (!do_alloc(*S, idx, r, 0, nullptr, false))
+                break;
+        }
+        stats().hit("reach.pool_drained");
     }
 } // namespace hs
